@@ -19,6 +19,8 @@ import PolyVerif.Model.Obj
     c05.holds.resave <text> <text'>   → `Resaves`: text' (= Write(Read text)) has the faces of text (count, order, positions,
                                         vt/vn where the whole group has them) and the reader accepts text' again
     c05.holds.resave_mixed_shapes …   → same predicate; texts with a group that mixes corner shapes
+    c05.holds.fs_materials <groups> <groups'> → SameMaterials: obj.Save / SaveAll to disk (with .mtl) then obj.Load gives every
+                                        triangle the material record it had (desc = name|Ns|Kd|map_Kd)
     c05.holds.reload <result> <result'> → RoundTripsCarry: the second load (of the saved text) returns the scene of the
                                         first load (obj_reload); emitted when every group has a face
 -/
@@ -380,6 +382,22 @@ def readText (t : String) : Except Err (List (String × Mesh S) × List String) 
 /-- print-then-parse of a scalar (identity on float32 values with a short exact expansion) -/
 def rtF (x : S) : S := (parseF32 (printF x)).getD x
 
+/-- `ngroups (name ntris nranges (desc count)…)…` -/
+def matGroups? : List String → Option (List (String × Nat × List (String × Nat)) × List String)
+  | n :: ts => do
+    let n ← nat? n
+    let one : List String → Option ((String × Nat × List (String × Nat)) × List String)
+      | name :: nt :: k :: ts => do
+        let name ← strOfHex name; let nt ← nat? nt; let k ← nat? k
+        let rng : List String → Option ((String × Nat) × List String)
+          | d :: c :: ts => do let d ← strOfHex d; let c ← nat? c; some ((d, c), ts)
+          | _ => none
+        let (rs, ts) ← takeN rng k ts
+        some ((name, nt, rs), ts)
+      | _ => none
+    takeN one n ts
+  | [] => none
+
 def handle (op : String) (args : List String) : Option String := do
   match op with
   | "c05.write" =>
@@ -401,6 +419,10 @@ def handle (op : String) (args : List String) : Option String := do
       let ((_, ms), r) ← scene? args
       let ((gs, _), _) ← result? r
       pure (boolStr (RoundTripsCarry rtF none ms gs))
+  | "c05.holds.fs_materials" =>
+      let (want, r) ← matGroups? args
+      let (got, _) ← matGroups? r
+      pure (boolStr (SameMaterials want got))
   | "c05.holds.reload" =>
       let ((ms, _), r) ← result? args
       let ((gs, _), _) ← result? r
